@@ -170,3 +170,49 @@ PROPS["C03"] = {
     "assumptions": [],
     "not_proved": ["scalarMult_correct / scalarBaseMult_correct as single end-to-end theorems about Model.SM2Curve (side conditions of incomplete mixed addition in the comb)", "limb-level field arithmetic (layer L): add_ok, mul_ok, reduceDegree_ok", "isOnCurve_iff at limb level"],
 }
+
+PROPS["C01"] = {
+    "modules": ["Gmsm.Props.C01", "Gmsm.Props.C03"],
+    "theorems": [
+        "Props.C01.verify_range", "Props.C01.verify_altered_msg_iff", "Props.C01.verify_sign", "Props.C01.smul_mod_order",
+        "Props.C01.der_roundtrip", "Props.C01.der_trailing_rejected", "Props.C01.decIntContent_intContent",
+        "Props.C03.nonce_range", "Props.C03.n_prime",
+    ],
+    "gen_items": ["sm2."],
+    "level": "proof",
+    "claim": "Spec.SM2 is GM/T 0003.2 in Lean (reproduces the standard's example signature). Theorems: the completeness algebra verify(sign) over any commutative group with [q]G = O; r, s outside [1,n-1] or r+s = 0 mod n are rejected whatever else; a signature valid for digest e is accepted for e' iff e' = e mod n (exact characterisation: soundness against altered messages/IDs reduces to SM3); the strict DER codec of SEQUENCE{INTEGER r, INTEGER s} round-trips for all r,s < 2^256 and rejects trailing bytes. The real Sm2Sign/Sign/Sm2Verify/Verify are compared with the spec (exact r,s for the same nonce bytes, number of random bytes consumed, DER bytes, acceptance of every single-field perturbation and non-canonical encoding) on every run.",
+    "note": "Hardness is never assumed as an axiom: soundness is the characterisation theorem. The group-law facts the completeness algebra needs are C03's. Not proved: der_canonical (decode b = some (r,s) -> b = encode (r,s)); 'two signatures never share r' is reduced to fresh reader bytes (nonce = f(40 fresh bytes), checked by the consumed-bytes count in the correspondence).",
+    "trusted_base": ["Spec.SM2.signWith/verifyE/za transcribe GM/T 0003.2; tie to sm2.go by sm2sign/sm2signder/sm2verify/sm2verifyder correspondence with deterministic readers; cryptobyte DER parsing is x/crypto code"],
+    "assumptions": ["x-coordinate extraction and scalar multiplication implement the group (C03)"],
+    "not_proved": ["der_canonical", "distinct_nonce_distinct_r"],
+}
+
+PROPS["C02"] = {
+    "modules": ["Gmsm.Props.C02"],
+    "theorems": [
+        "Props.C02.decrypt_rejects_short", "Props.C02.decrypt_rejects_offcurve", "Props.C02.decrypt_accepts_hash",
+        "Props.C02.altered_implies_collision", "Props.C02.kdf_length", "Props.C02.encrypt_empty_none",
+    ],
+    "gen_items": ["sm2."],
+    "level": "proof",
+    "claim": "Spec.SM2.encryptWith/decrypt is GM/T 0003.4 in Lean. Theorems for every key and input: ciphertexts shorter than 97 bytes and ciphertexts whose C1 is off the curve are errors (no multiplication by d happens on an invalid-curve point); decryption accepts only if C3 = SM3(x2||m||y2) and m = C2 xor KDF(x2||y2), so two accepted ciphertexts with the same C1, C3 and different plaintexts are an SM3 collision (reduction, no hardness claimed); KDF length; the empty plaintext is never encrypted (termination with an error). The real Encrypt/Decrypt/EncryptAsn1/DecryptAsn1 are compared byte-for-byte with the spec for the same nonce bytes, for every length class, both orderings, raw and ASN.1, truncations, single-byte changes, off-curve C1, wrong key.",
+    "note": "decrypt(encrypt m) = m as a Lean theorem needs [d][k]G = [k][d]G for the Nat-level affine arithmetic, i.e. the group structure of Spec.SM2.padd, which is only established through Mathlib's curve for the Jacobian formulas (C03); the round trip is therefore decided by correspondence (real code decrypts what it encrypted, and equals the spec) and listed as not proved.",
+    "trusted_base": ["Spec.SM2 transcription of GM/T 0003.4; tie by sm2enc/sm2dec correspondence; encoding/asn1 is stdlib"],
+    "assumptions": [],
+    "not_proved": ["decrypt_encrypt as a theorem (group commutativity of Spec.SM2.smul)", "cipher_asn1_roundtrip as a theorem"],
+}
+
+PROPS["C13"] = {
+    "modules": ["Gmsm.Props.C13"],
+    "theorems": [
+        "Props.C13.shared_point_agree", "Props.C13.reduce_scalar", "Props.C13.xbar_range", "Props.C13.xbar_mod",
+        "Props.C13.offcurve_rejected", "Props.C13.infinity_not_on_curve", "Props.C13.outputs_from_V",
+    ],
+    "gen_items": ["sm2."],
+    "level": "proof",
+    "claim": "Spec.SM2.kex is GM/T 0003.3 (reproduces the standard's example K, S1, S2). Theorems: over any commutative group both parties' points [tA](PB+[x2bar]RB) and [tB](PA+[x1bar]RA) coincide; xbar keeps the low 127 bits and sets bit 127; equal V gives identical (K, S1, S2) on both sides; an ephemeral point off the curve - including (0,0) - is an error. The repaired KeyExchangeA/B are compared with the spec for both roles (keys with leading-zero coordinates, identities 0..8192 bytes, key lengths 1..1024, off-curve / infinite ephemeral points).",
+    "note": "Trusted: the transcription of GM/T 0003.3 (validated on the published example: K = 6C893473..., S1 = D3A0FE15..., S2 = 18C7894B...); group facts from C03.",
+    "trusted_base": ["Spec.SM2.kex; tie by sm2kex/sm2kexbad correspondence"],
+    "assumptions": [],
+    "not_proved": ["keXHat byte-level Go function = xbar as a theorem (compared through kex on keys with short coordinates)"],
+}
